@@ -114,6 +114,7 @@ pub fn case(tape: &[u32]) -> CaseOutcome {
         }
         match (&run_model.outcome, outcome) {
             (_, ExecOutcome::Panic(p)) => return CaseOutcome::Fail(Failure::new(format!("C09:{}:{}", mode, p.signature()), format!("execute_into panicked in call {}: {}", call, p.message), d(json!({})))),
+            (Outcome::Err(_), ExecOutcome::PollBound(_)) => report.counters.push(("inconclusive:poll-bound-next-to-failing-reference-run".into(), 1)),
             (_, ExecOutcome::PollBound(_)) => return CaseOutcome::Fail(Failure::new(format!("C09:{}:poll-bound", mode), "poll bound".to_string(), d(json!({})))),
             (Outcome::Inconclusive(why), _) => {
                 report.counters.push((format!("inconclusive:{}", why.split(':').next().unwrap_or("")), 1));
